@@ -305,7 +305,8 @@ def exec_stmts(ctx, stmts, b, target, acc):
 
             mine = {'started': False}
 
-            def body(bb, fn, a, _j=callee, _mine=mine, **kws):
+            def body(bb, fn, a, /, *, _fbh_j=callee, _fbh_mine=mine, **kws):
+                _j, _mine = _fbh_j, _fbh_mine
                 _mine['started'] = True
                 if os.path.lexists(fn):
                     ctx.contract.append(['target-present-at-start', ctx.rel(fn)])
@@ -343,8 +344,8 @@ def exec_stmts(ctx, stmts, b, target, acc):
             _, callee, arg, kw, catch = st
             name = ctx.funcs[callee]['name']
 
-            def body(bb, a, _j=callee, **kws):
-                return run_func(ctx, _j, bb, None, a, kws)
+            def body(bb, a, /, *, _fbh_j=callee, **kws):
+                return run_func(ctx, _fbh_j, bb, None, a, kws)
             ctx.call_stack.append(['sb', name, wire.enc([dec_pyval(arg)]) if _jsonable(dec_pyval(arg)) else None,
                                    wire.enc(dec_pyval(kw))])
             depth = len(ctx.call_stack)
